@@ -193,7 +193,8 @@ pub fn record(args: &[String]) -> i32 {
             Some(r) => r,
             None => continue,
         };
-        let text = concretise_src(rec["text"].as_str().unwrap());
+        // (a raw text is taken as it is; a rendered one is over the model alphabet)
+        let text = if rec["raw"] == true { rec["text"].as_str().unwrap().to_string() } else { concretise_src(rec["text"].as_str().unwrap()) };
         let stdin: Vec<u8> = rec.get("inp").and_then(|x| x.as_array()).map_or(Vec::new(), |a| {
             a.iter().flat_map(|c| crate::jv::concretise(c.as_str().unwrap()).into_bytes()).collect()
         });
